@@ -616,7 +616,9 @@ impl Instance {
         }
 
         let bound = f.evaluate_bound(&bounds);
-        if bound.lower() > 0.0 {
+        // The bound evaluation may be inaccurate due to floating-point arithmetic error.
+        // Use the same tolerance as the feasibility check `f(x) < 1e-6` of evaluated constraints.
+        if bound.lower() > 1e-6 {
             bail!(InfeasibleDetected::InequalityConstraintBound {
                 id: ConstraintID::from(constraint_id),
                 bound,
@@ -631,7 +633,7 @@ impl Instance {
             )?;
             return Ok(None);
         }
-        let b = -bound.lower() / slack_upper_bound as f64;
+        let b = (-bound.lower()).max(0.0) / slack_upper_bound as f64;
 
         self.decision_variables.push(DecisionVariable {
             id: slack_id,
